@@ -111,7 +111,7 @@ def mutants_of(path):
 
 def run(cmd, cwd=None, timeout=900, env=ENV):
     try:
-        p = subprocess.run(cmd, cwd=cwd, env=env, stdout=subprocess.PIPE, stderr=subprocess.STDOUT, text=True, timeout=timeout)
+        p = subprocess.run(cmd, cwd=cwd, env=env, stdout=subprocess.PIPE, stderr=subprocess.STDOUT, text=True, errors="replace", timeout=timeout)
         return p.returncode, p.stdout
     except subprocess.TimeoutExpired:
         return 124, "timeout"
